@@ -88,7 +88,8 @@ def cramerv_measure(
     tuple[bool, dict[str, Any]]
         Whether ``x`` is sufficiently associated to ``y`` and Carmér's V between ``x`` and ``y``.
     """
-    # Chi2 statistic
+    # Chi2 statistic (already measured when chi2_measure was used beforehand)
+    measurement = {"chi2_statistic": chi2_statistic}
     if chi2_statistic is None:
         _, measurement = chi2_measure(x, y, **kwargs)
         chi2_statistic = measurement.get("chi2_statistic")
@@ -137,7 +138,8 @@ def tschuprowt_measure(
     tuple[bool, dict[str, Any]]
         Whether ``x`` is sufficiently associated to ``y`` and Tschuprow's T between ``x`` and ``y``.
     """
-    # Chi2 statistic
+    # Chi2 statistic (already measured when chi2_measure was used beforehand)
+    measurement = {"chi2_statistic": chi2_statistic}
     if chi2_statistic is None:
         _, measurement = chi2_measure(x, y, **kwargs)
         chi2_statistic = measurement.get("chi2_statistic")
